@@ -70,6 +70,16 @@ def setBChecked (cls : String) : Option (Option Float → Float → Option Float
   | "PowerRTransform" => some (setMaxBChecked_PowerRTransform bTooSmall_PowerRTransform)
   | _ => none
 
+/-- `(ok, mx)` pairs: `ok = 0` a `transform_1d_grid` call on a grid its guards refuse -/
+def parseCalls : List String → Option (List (Bool × Float))
+  | [] => some []
+  | ok :: mx :: rest => do
+    let ok ← pNat ok
+    let mx ← pFloat mx
+    let tl ← parseCalls rest
+    pure ((ok != 0, mx) :: tl)
+  | _ => none
+
 def handle : List String → Option String
   | "C19.run" :: rest => do
     let ops ← parseOps rest
@@ -100,6 +110,14 @@ def handle : List String → Option String
     -- after each call: the state and whether the call raised
     let (_, trace) := mxs.foldl (fun (acc : Option Float × List String) mx =>
       let (s', r) := f acc.1 mx
+      (s', acc.2 ++ [(match s' with | some v => sFloat v | none => "none") ++ " " ++ (if r then "1" else "0")])) (st, [])
+    pure ("ok " ++ String.intercalate " " trace)
+  | "C19.bcalls" :: cls :: b0 :: rest => do
+    let f ← setBChecked cls
+    let st : Option Float ← if b0 == "none" then some none else (pFloat b0).map some
+    let calls ← parseCalls rest
+    let (_, trace) := calls.foldl (fun (acc : Option Float × List String) c =>
+      let (s', r) := t1dStep (guardsFirst t1dStatements) f c.1 acc.1 c.2
       (s', acc.2 ++ [(match s' with | some v => sFloat v | none => "none") ++ " " ++ (if r then "1" else "0")])) (st, [])
     pure ("ok " ++ String.intercalate " " trace)
   | "C19.memo" :: which :: v0 :: rest => do
